@@ -57,7 +57,7 @@ REQUIRED = ('representation_states_compared', 'negative_key_mappings',
             'valid_neighbours_accepted', 'divmod_postconditions',
             'rake_postconditions', 'game_class_forms',
             'game_object_reuse_states', 'operation_card_forms',
-            'hand_card_forms')
+            'hand_card_forms', 'beyond_context_precision_layouts')
 EXHAUSTIVE = {'quick': False, 'thorough': False}
 
 AUTOS = tuple(Automation)
@@ -135,6 +135,20 @@ def check_representations(res, rng):
     stacks = [rng.randint(10, 60) * unit for _ in range(n)]
     if rng.random() < 0.3:
         stacks = [stacks[0]] * n
+    if not isinstance(unit, Fraction) and rng.random() < 0.12:
+        # Decimal amounts with more significant digits than the arithmetic
+        # context keeps (28): every way of writing them must hand over the
+        # value as written (no form may pass it through an addition)
+        big = Decimal(str(rng.randint(10 ** 29, 10 ** 31)) + '.'
+                      + str(rng.randint(1, 99)))
+        if rng.random() < 0.5:
+            stacks = [big] * n
+        else:
+            stacks = [Decimal(str(rng.randint(10 ** 29, 10 ** 31)) + '.5')
+                      for _ in range(n)]
+        if not stud and rng.random() < 0.5:
+            antes = [Decimal('1' + '0' * 27 + '3.25')] * n
+        res.counters['beyond_context_precision_layouts'] += 1
     seed = rng.getrandbits(32)
 
     def gargs_for(a, b):
